@@ -13,9 +13,10 @@ Runs with cwd /verif after the harness is built.
 import os, re, subprocess, sys
 
 ROOT = os.path.dirname(os.path.dirname(os.path.abspath(__file__)))
-SRC = "/repo/src/core/src/encodings.rs"
+# VERIF_REPO / VERIF_TARGET: only set by tools/mutest.py (seeded changes in a scratch worktree)
+SRC = os.path.join(os.environ.get("VERIF_REPO", "/repo"), "src/core/src/encodings.rs")
 OUT = os.path.join(ROOT, "lean", "Sourmash", "Generated", "C02.lean")
-BIN = os.path.join(ROOT, ".cache", "target", "debug", "c02")
+BIN = os.path.join(os.environ.get("VERIF_TARGET", os.path.join(ROOT, ".cache", "target")), "debug", "c02")
 
 
 def die(msg):
